@@ -2135,7 +2135,7 @@ public:
     }
     void visitPost(BinaryOpExpr &expr) {
       if (expr.isConst()) {
-        cb.genConst(Reg::A, expr.getValue());
+        cb.genConst(reg, expr.getValue());
       } else {
         // Generate a binary op.
         switch (expr.getOp()) {
